@@ -221,6 +221,7 @@ MC_INIT
         long_split_char_join(s, ' ');
         long_split_delims(s, " \t");
         long_split_delims(s, "abcdefg"); // the filler letters as delimiters: tokens are the blanks
+        long_split_delims(s, "");        // the empty set: the whole input is one token
         long_trim(s);
         {
             Str t = s; // tabs and CR/LF as the white space
@@ -251,7 +252,7 @@ MC_INIT
             std::replace(l.begin(), l.end(), 'a', '\0'); // NUL bytes inside the extent: never members of a symbol set
             long_creader(l);
         }
-        mc::more_cases(16, 16);
+        mc::more_cases(17, 17);
     });
 
     // igris_memmem: needle lengths {1,2,255,256,257} placed at {0,1,254,255,256,257,end} or absent
